@@ -16,6 +16,11 @@ def loc_key(l):
 def check_workspace(ctx, files, tag):
     root = lspws.fresh_dir("c17_" + tag)
     lsp.write_workspace(root, files)
+    from . import progs
+    acc = progs.compile_many([{"mods": {"file://%s/%s" % (root, n): t for n, t in files.items()}, "main": "file://%s/main.oal" % root}])[0]
+    if acc.get("status") != "ok":
+        ctx.count("workspace_not_accepted")      # the server only answers for folders whose program is accepted
+        return
     b = lspws.bindings(files, root)
     if b is None:
         ctx.count("workspace_not_resolvable")
